@@ -1629,6 +1629,12 @@ _resource_tracker""")),
         _pickled_object = self._payload
         if not self._keep_wrapper:""")),
 
+    M("fresh-env-filled-in-place", ["C18"], ["R-SPAWN-FRESH"],
+      (FE, """    env = {**os.environ, **env}
+""", """    for key, value in os.environ.items():
+        env.setdefault(key, value)
+""")),
+
 ]
 
 
@@ -1697,6 +1703,28 @@ BENIGN = [
         self._work_ids = queue.Queue()""", """        self._work_ids = queue.Queue()
         self._running_work_items = []
         self._pending_work_items = {}""")),
+    B("benign-call-item-local", None,
+      (PE, """                    self.call_queue.put(
+                        _CallItem(
+                            work_id,
+                            work_item.fn,
+                            work_item.args,
+                            work_item.kwargs,
+                        ),
+                        block=True,
+                    )""", """                    call_item = _CallItem(
+                        work_id,
+                        work_item.fn,
+                        work_item.args,
+                        work_item.kwargs,
+                    )
+                    self.call_queue.put(call_item, block=True)""")),
+    B("benign-env-merge-copy-update", ["C18", "C20"],
+      (FE, """    env = {**os.environ, **env}
+    encoded_env = []""", """    overlay = env
+    env = dict(os.environ)
+    env.update(overlay)
+    encoded_env = []""")),
     B("benign-increment-spelled-out", None,
       (PE, """                    n_sentinels_sent += 1""", """                    n_sentinels_sent = n_sentinels_sent + 1"""),
       (PE, """            self._queue_count += 1""", """            self._queue_count = self._queue_count + 1"""),
